@@ -28,6 +28,12 @@ func (RemoteSource) finalSourceSigil() {}
 // or returns an error if it does not use the correct syntax for interpretation
 // as a remote source address.
 func ParseRemoteSource(given string) (RemoteSource, error) {
+	// The generic source parsers refuse surrounding spaces for every kind of
+	// address; a remote address accepted here must be acceptable there too.
+	if strings.TrimSpace(given) != given {
+		return RemoteSource{}, fmt.Errorf("source address must not have leading or trailing spaces")
+	}
+
 	expandedGiven := given
 	for _, shorthand := range remoteSourceShorthands {
 		replacement, ok, err := shorthand(given)
